@@ -48,7 +48,7 @@ def judge(out, behs, lines, found, prop):
         for b, pos, rec in found["BAD8"]:
             if has_and_then(behs[b]["stack"]) and f17:
                 out.known_finding("F17", f17[0]["what"])
-            elif prop == "C07":
+            else:
                 out.violation("stack %d: the composed collector publishes a summary below what its layers accept (events would be lost): hint=%s stack=%s"
                               % (b, rec["summary"]["hint"], json.dumps(behs[b]["stack"])[:500]), {"behaviour": behs[b], "summary": rec["summary"]})
     for b, pos, rec in sorted(found[key], key=lambda x: (x[0], x[1])):
